@@ -151,6 +151,7 @@ fn weights(mode: &str) -> [usize; 15] {
         "c07" => [4, 2, 6, 6, 4, 4, 5, 4, 3, 2, 2, 0, 14, 0, 0],
         "c10" => [3, 2, 5, 5, 3, 3, 4, 5, 4, 2, 1, 1, 8, 6, 2],
         "c11" => [4, 2, 6, 6, 4, 4, 5, 4, 3, 2, 2, 0, 0, 14, 0],
+        "c16" => [3, 2, 8, 8, 6, 6, 9, 6, 5, 5, 0, 0, 0, 0, 0],
         "sem" => [4, 3, 9, 9, 0, 0, 0, 7, 6, 0, 3, 8, 0, 3, 0], // semantic builder: ite/iff/xor/compose are todo!()
         _ => panic!("unknown sdd mode {mode}"),
     }
@@ -163,6 +164,67 @@ pub struct Session<'a, B: SddBuilder<'a>> {
     nv: usize,
     next_slot: usize,
     semantic: bool,
+    /// mode c16: (vtree, compression) for the cache-cold twin builder of every operation
+    cold: Option<(VTree, bool)>,
+}
+
+/// structural copy of an SDD into another builder over the same vtree (through the public operations only)
+fn sdd_copy<'a, 'b, B: SddBuilder<'b>>(b2: &'b B, p: SddPtr<'a>, memo: &mut HashMap<usize, SddPtr<'b>>) -> SddPtr<'b> {
+    match p {
+        SddPtr::PtrTrue => SddPtr::PtrTrue,
+        SddPtr::PtrFalse => SddPtr::PtrFalse,
+        SddPtr::Var(l, pol) => SddPtr::Var(l, pol),
+        _ => {
+            let reg = if p.is_neg() { p.neg() } else { p };
+            let addr = addr_of(reg).unwrap();
+            let r = if let Some(r) = memo.get(&addr) {
+                *r
+            } else {
+                let elems: Vec<(SddPtr<'a>, SddPtr<'a>)> = match reg {
+                    SddPtr::BDD(bd) => vec![(SddPtr::Var(bd.label(), true), bd.high()), (SddPtr::Var(bd.label(), false), bd.low())],
+                    SddPtr::Reg(o) => o.iter().map(|a| (a.prime(), a.sub())).collect(),
+                    _ => unreachable!(),
+                };
+                let mut acc = SddPtr::PtrFalse;
+                for (pr, su) in elems {
+                    let (x, y) = (sdd_copy(b2, pr, memo), sdd_copy(b2, su, memo));
+                    acc = b2.or(acc, b2.and(x, y));
+                }
+                memo.insert(addr, acc);
+                acc
+            };
+            if p.is_neg() { r.neg() } else { r }
+        }
+    }
+}
+
+/// the same operation on structural copies of its operands in a brand-new builder (empty apply / ite caches, empty tables)
+fn cold_twin(vt: &VTree, compress: bool, op: &str, ev: &Value, pool: &[SddPtr]) -> Result<(Value, Vec<Value>), String> {
+    let a: Vec<usize> = ev["a"].as_array().map(|x| x.iter().map(|v| v.as_u64().unwrap() as usize).collect()).unwrap_or_default();
+    guarded(|| {
+        let mut bm = CompressionSddBuilder::new(vt.clone());
+        bm.set_compression(compress);
+        let b2 = &bm;
+        let mut memo = HashMap::new();
+        let vl = |v: usize| VarLabel::new_usize(v);
+        let mut arg = |i: usize| sdd_copy(b2, pool[a[i]], &mut memo);
+        let r2 = match op {
+            "neg" => { let x = arg(0); b2.negate(x) }
+            "and" => { let (x, y) = (arg(0), arg(1)); b2.and(x, y) }
+            "or" => { let (x, y) = (arg(0), arg(1)); b2.or(x, y) }
+            "xor" => { let (x, y) = (arg(0), arg(1)); b2.xor(x, y) }
+            "iff" => { let (x, y) = (arg(0), arg(1)); b2.iff(x, y) }
+            "ite" => { let (x, y, z) = (arg(0), arg(1), arg(2)); b2.ite(x, y, z) }
+            "cond" => { let x = arg(0); b2.condition(x, vl(a[1]), a[2] == 1) }
+            "exists" => { let x = arg(0); b2.exists(x, vl(a[1])) }
+            "compose" => { let (x, y) = (arg(0), arg(2)); b2.compose(x, vl(a[1]), y) }
+            _ => panic!("no cold twin for {op}"),
+        };
+        let mut ids = SddIds::new();
+        let mut nodes = vec![];
+        let root = ids.ptr(r2, &mut nodes);
+        (root, nodes)
+    })
 }
 
 impl<'a, B: SddBuilder<'a>> Session<'a, B> {
@@ -275,6 +337,7 @@ impl<'a, B: SddBuilder<'a>> Session<'a, B> {
                 Ok(ptr) => {
                     let mut newn = vec![];
                     let root = self.ids.ptr(ptr, &mut newn);
+                    let old_in_slot = self.pool[res_slot];
                     self.pool[res_slot] = ptr;
                     self.next_slot += 1;
                     ev["res"] = json!(res_slot);
@@ -283,6 +346,19 @@ impl<'a, B: SddBuilder<'a>> Session<'a, B> {
                     ev["dirty"] = json!(self.ids.dirty());
                     if self.semantic {
                         ev["hash"] = json!(limbs(sem_hash(ptr)));
+                    }
+                    if let Some((vt, compress)) = &self.cold {
+                        if !matches!(op, "var" | "cnf") {
+                            // C16: the caches of this long-lived builder must not have changed the result
+                            let before: Vec<SddPtr> = { let mut q = self.pool.clone(); q[res_slot] = old_in_slot; q };
+                            match cold_twin(vt, *compress, op, &ev, &before) {
+                                Ok((root, nodes)) => {
+                                    ev["cold_root"] = root;
+                                    ev["cold_nodes"] = json!(nodes);
+                                }
+                                Err(m) => ev["cold_panic"] = json!(m),
+                            }
+                        }
                     }
                     out.emit(ev);
                     true
@@ -390,10 +466,11 @@ fn run<'a, B: SddBuilder<'a>>(
     len: usize,
     out: &mut Out,
     sem_hash: &dyn Fn(SddPtr<'a>) -> u128,
+    cold: Option<(VTree, bool)>,
 ) {
     let mut pool = vec![SddPtr::PtrTrue; K];
     pool[1] = SddPtr::PtrFalse;
-    let mut s = Session { b, ids: SddIds::new(), pool, nv, next_slot: 0, semantic };
+    let mut s = Session { b, ids: SddIds::new(), pool, nv, next_slot: 0, semantic, cold };
     for _ in 0..len {
         if !s.step(rng, mode, out, sem_hash) {
             break;
@@ -425,11 +502,12 @@ pub fn record(args: &Args) {
         if semantic {
             let b = SemanticSddBuilder::<{ primes::U64_LARGEST }>::new(vt);
             let bb = &b;
-            run(bb, n, true, &mut rng, &mode, seg_len, &mut out, &|p| bb.cached_semantic_hash(p).value());
+            run(bb, n, true, &mut rng, &mode, seg_len, &mut out, &|p| bb.cached_semantic_hash(p).value(), None);
         } else {
+            let cold = if mode == "c16" { Some((vt.clone(), compress)) } else { None };
             let mut b = CompressionSddBuilder::new(vt);
             b.set_compression(compress);
-            run(&b, n, false, &mut rng, &mode, seg_len, &mut out, &|_| 0);
+            run(&b, n, false, &mut rng, &mode, seg_len, &mut out, &|_| 0, cold);
         }
     }
     rsdd::verif::set_table_capacity(0);
